@@ -346,7 +346,8 @@ func (h *batHarness) do(op J) J {
 		}
 		switch {
 		case stopping:
-			h.waitFor("Close was waiting for the runner call: Run and Close do not return", func() bool { return h.run != "running" && h.closeRet })
+			// (a runner that calls the function again instead of stopping is parked again: that ends the wait as well)
+			h.waitFor("Close was waiting for the runner call: Run and Close do not return", func() bool { return (h.run != "running" && h.closeRet) || h.inCall })
 		case ok:
 			if h.waitFor("the callbacks of a persisted batch do not run", func() bool { return h.nAcks >= acks+size || h.run != "running" }) &&
 				h.run == "running" && h.backlog() > 0 {
